@@ -165,6 +165,7 @@ key_common = dict(SB_HAS_CAL=1, SB_HAS_AUTH=1)
 H.append({
     "name": "h_key", "src": "h_key.c", "env": ENV + ["ext_seam", "pki_model"], "tus": RULE_TUS + ["types", "tlv", "fast_tlv"],
     "unwind": 6, "unwindset": ["KSI_TLV_free:4", "KSI_TLV_writeBytes.0:40", "serializeTlv:4"], "timeout": 300, "mem_gb": 8, "object_bits": 12,
+    "restrict_fp": ["KSI_List_free.function_pointer_call.1/KSI_TLV_free"],
     "functions": ["KSI_VerificationRule_CalendarHashChainPresenceVerification", "KSI_VerificationRule_CalendarAuthenticationRecordPresenceVerification",
                   "KSI_VerificationRule_CertificateExistence", "KSI_VerificationRule_CertificateValidity", "KSI_VerificationRule_CalendarAuthenticationRecordSignatureVerification",
                   "KSI_PublicationsFile_getPKICertificateById", "KSI_OctetString_equals", "KSI_TLV_serialize", "initPublicationsFile"],
@@ -183,6 +184,29 @@ H.append({
         inst("sig_c1", PARTS=4, C04_NCERT=1, **key_common),
         inst("sig_c2", PARTS=4, C04_NCERT=2, **key_common),
         inst("sig_c0", PARTS=4, C04_NCERT=0, **key_common),
+        inst("sig_c1_flags60", PARTS=4, C04_NCERT=1, RAW_FLAGS="0x60", **key_common),
+    ],
+})
+
+# ---------------------------------------------------------------- deprecated-algorithm rules
+H.append({
+    "name": "h_depr", "src": "h_depr.c", "env": ENV, "tus": RULE_TUS,
+    "unwind": 6, "timeout": 300, "mem_gb": 8, "object_bits": 12,
+    "functions": ["KSI_VerificationRule_CalendarHashChainHashAlgorithmDeprecatedAtPubTime", "KSI_VerificationRule_PublicationsFileSignatureCalendarChainHashAlgorithmDeprecatedAtPubTime",
+                  "KSI_VerificationRule_UserProvidedPublicationSignatureCalendarChainHashAlgorithmDeprecatedAtPubTime",
+                  "KSI_VerificationRule_UserProvidedPublicationExtendedCalendarChainHashAlgorithmDeprecatedAtPubTime",
+                  "signatureCalendarChainHashAlgorithmDeprecatedAtPubTime", "calendarChainAggrAlgorithmState", "wasDeprecatedAt", "getNextLink"],
+    "bound": "calendar chains of 1..3 links with concrete direction patterns and sibling algorithms SHA-1 / SHA2-256; publication time (64 bit) symbolic; the algorithm status function of hash.c is used as given",
+    "instances": [
+        inst("sig_l_sha1", ON_EXT=0, SB_HAS_CAL=1, SB_CAL_NLINKS=1, SIG_DIRS=1, SB_CAL_SIBALG="{0,0,0,0}", HAS_SHA1_LEFT=1),
+        inst("sig_r_sha1", ON_EXT=0, SB_HAS_CAL=1, SB_CAL_NLINKS=1, SIG_DIRS=0, SB_CAL_SIBALG="{0,0,0,0}", HAS_SHA1_LEFT=0),
+        inst("sig_rl_sha1_256", ON_EXT=0, SB_HAS_CAL=1, SB_CAL_NLINKS=2, SIG_DIRS=2, SB_CAL_SIBALG="{0,1,0,0}", HAS_SHA1_LEFT=0),
+        inst("sig_lrl_256_sha1_sha1", ON_EXT=0, SB_HAS_CAL=1, SB_CAL_NLINKS=3, SIG_DIRS=5, SB_CAL_SIBALG="{1,0,0,0}", HAS_SHA1_LEFT=1),
+        inst("sig_nocal", ON_EXT=0, SB_HAS_CAL=0, HAS_SHA1_LEFT=0),
+        inst("ext_l_sha1", ON_EXT=1, C04_USERPUB=1, C04_EXT_NLINKS=1, C04_EXT_DIRS=1, C04_EXT_SIBALG="{0,0,0,0}", HAS_SHA1_LEFT=1),
+        inst("ext_rl_sha1_256", ON_EXT=1, C04_USERPUB=1, C04_EXT_NLINKS=2, C04_EXT_DIRS=2, C04_EXT_SIBALG="{0,1,0,0}", HAS_SHA1_LEFT=0),
+        inst("ext_lr_256_sha1_l_sha1", ON_EXT=1, C04_USERPUB=1, C04_EXT_NLINKS=3, C04_EXT_DIRS=5, C04_EXT_SIBALG="{1,0,0,0}", HAS_SHA1_LEFT=1),
+        inst("ext_unbuffered", ON_EXT=1, C04_USERPUB=1, BUFFERED=0, HAS_SHA1_LEFT=0),
     ],
 })
 
